@@ -1,9 +1,12 @@
 #!/bin/sh
 # tools/mutant.sh <patch.diff> <Cxx> [tier]  — apply a seeded change to /repo, run one check, always revert.
+# The evidence file of the check is saved and restored (evidence must describe the unchanged tree).
 P="$1"; C="$2"; T="${3:-quick}"
 git -C /repo diff --quiet || { echo "/repo dirty"; exit 9; }
 git -C /repo apply "$P" || { echo "patch does not apply"; exit 9; }
-cd /verif && ./vcheck "$C" --tier "$T" 2>&1 | grep -v "^  key=" | cut -c1-400 | tail -${LINES_OUT:-6}
-rc=$?
+cd /verif
+[ -f evidence/$C.json ] && cp evidence/$C.json /tmp/.evidence_$C.bak
+./vcheck "$C" --tier "$T" 2>&1 | grep -v "^  key=" | cut -c1-400 | tail -${LINES_OUT:-6}
+[ -f /tmp/.evidence_$C.bak ] && mv /tmp/.evidence_$C.bak evidence/$C.json
 git -C /repo checkout -- .
 git -C /repo diff --quiet && echo "[reverted]"
